@@ -78,6 +78,9 @@ def one(ctx, desc):
         ctx.case(nontrivial=False)
         return err[0] == "build"
     obs = sysdesc.observe(df)
+    if not solved.rows_ok(ctx, desc, obs):
+        ctx.case(nontrivial=False)
+        return False
     solved.shape_stats(ctx, desc)
     configured = sum(1 for c in desc["comps"] if c.get("pconf"))
     ctx.case(key=solved.desc_key(desc), nontrivial=configured > 0,
@@ -103,7 +106,7 @@ def one(ctx, desc):
             ctx.oracle(desc, "phase_lists_every_component", "solve", {}, {"phase": p["phase"]})
     # ---- oracle 2: solve(phase=p) == rows of phase p
     for ph in (phs if ctx.thorough() else [ctx.rng.choice(phs)]):
-        dfp, e = sysdesc.quiet_call(sys_.solve, phase=ph, **TOL)
+        dfp, e = sysdesc.quiet_call(sys_.solve, phase=ph, **TOL, **(desc.get("_call") or {}))
         if e is not None:
             ctx.oracle(desc, "solve_phase_is_slice", "solve", {}, {"phase": ph, "exception": repr(e)})
             continue
@@ -145,6 +148,8 @@ def one(ctx, desc):
 
 def gen_fn(rng):
     d = gen.gen_system(rng, phases=1.0, max_nodes=12, p_neg_src_rs=0.0, p_mux=0.4, p_micro=0.2)
+    if rng.random() < 0.12:
+        d["_call"] = {"quiet": False}      # the progress display is switched on: printing is no part of the result
     for c in d["comps"]:
         if isinstance(c.get("pconf"), list) and rng.random() < 0.1:
             c["pconf"] = []
